@@ -273,3 +273,80 @@ Proof.
       apply andb_prop in E. destruct E as [E1 E2]. apply Z.leb_le in E1. eauto.
   - intros c Hc. apply in_app_or in Hc. destruct Hc as [Hc|[<-|[]]]; [apply in_remove in Hc; apply Hvals; tauto | auto].
 Qed.
+
+(* ---------- replacing the entry named n by q' (same name and parent) ---------- *)
+
+Lemma map_replace_notin (q' : qshape) k l : (forall y, In y l -> q_name y <> k) ->
+  map (fun c => if q_name c =? k then q' else c) l = l.
+Proof.
+  induction l as [|y l IHl]; intros H; [reflexivity|]. cbn [map].
+  destruct (q_name y =? k) eqn:E3; [apply Z.eqb_eq in E3; exfalso; apply (H y); [left; reflexivity | exact E3]|].
+  f_equal. apply IHl. intros z Hz. apply H. right. exact Hz.
+Qed.
+
+Section UpdConst.
+  Variables (sh : list qshape) (n : Z) (q q' : qshape).
+  Hypothesis Hnd : NoDup (names sh).
+  Hypothesis Hf : find sh n = Some q.
+  Hypothesis Hname : q_name q' = q_name q.
+  Hypothesis Hpar : q_parent q' = q_parent q.
+
+  Let sh' := upd_sh sh n (fun _ => q').
+
+  Lemma upd_const_pointwise : sh' = map (fun c => if q_name c =? n then q' else c) sh.
+  Proof. reflexivity. Qed.
+
+  Lemma upd_const_names : names sh' = names sh.
+  Proof.
+    unfold sh', names, upd_sh. rewrite map_map. apply map_ext_in. intros c Hc.
+    destruct (q_name c =? n) eqn:E; [|reflexivity]. apply Z.eqb_eq in E.
+    assert (c = q) by (rewrite <- E in Hf; rewrite (in_find _ _ Hnd Hc) in Hf; congruence). subst c. exact Hname.
+  Qed.
+
+  Lemma upd_const_find_same : find sh' n = Some q'.
+  Proof.
+    assert (Hqn : q_name q = n) by (eapply find_name; eauto).
+    unfold sh'. clear sh' Hnd. induction sh as [|x t IH]; [discriminate|]. cbn [find upd_sh map] in *.
+    destruct (q_name x =? n) eqn:E.
+    - injection Hf as <-. rewrite Hname, E. reflexivity.
+    - rewrite E. apply IH. exact Hf.
+  Qed.
+
+  Lemma upd_const_find_other m : m <> n -> find sh' m = find sh m.
+  Proof.
+    intros Hm. assert (Hqn : q_name q = n) by (eapply find_name; eauto).
+    unfold sh'. clear sh'. induction sh as [|x t IH]; [reflexivity|]. cbn [find upd_sh map] in *.
+    cbn [names map] in Hnd. inversion Hnd as [|? ? Hx Ht]; subst.
+    destruct (q_name x =? q_name q) eqn:E.
+    - injection Hf as <-. rewrite Hname. apply Z.eqb_eq in E.
+      destruct (q_name x =? m) eqn:E2; [apply Z.eqb_eq in E2; congruence|].
+      (* no other entry is named n *)
+      f_equal. apply map_replace_notin. intros y Hy E3. apply Hx. rewrite <- E3. apply in_map. exact Hy.
+    - destruct (q_name x =? m); [reflexivity | apply IH; assumption].
+  Qed.
+
+  Lemma sumc_upd_const g m :
+    sumc sh' g m = if q_parent q =? m then vadd (vsub (sumc sh g m) (g q)) (g q') else sumc sh g m.
+  Proof.
+    assert (Hqn : q_name q = n) by (eapply find_name; eauto).
+    set (g' := fun c => g (if q_name c =? n then q' else c)).
+    assert (E1 : sumc sh' g m = sumc sh g' m).
+    { unfold sumc, sh', children, upd_sh, g'. clear sh'. induction sh as [|x t IH]; [reflexivity|].
+      cbn [names map] in Hnd. inversion Hnd as [|? ? Hx Ht]; subst.
+      cbn [map filter find] in *. destruct (q_name x =? q_name q) eqn:E.
+      - injection Hf as <-. rewrite Hpar.
+        rewrite (map_replace_notin q' (q_name x) t) by (intros y Hy E3; apply Hx; rewrite <- E3; apply in_map; exact Hy).
+        destruct (q_parent x =? m); cbn [map]; rewrite ?vsum_cons, ?E.
+        + f_equal. apply vsum_map_ext. intros c Hc. apply filter_In in Hc. destruct Hc as [Hc _].
+          destruct (q_name c =? q_name x) eqn:E3; [|reflexivity].
+          apply Z.eqb_eq in E3. exfalso. apply Hx. rewrite <- E3. apply in_map. exact Hc.
+        + apply vsum_map_ext. intros c Hc. apply filter_In in Hc. destruct Hc as [Hc _].
+          destruct (q_name c =? q_name x) eqn:E3; [|reflexivity].
+          apply Z.eqb_eq in E3. exfalso. apply Hx. rewrite <- E3. apply in_map. exact Hc.
+      - specialize (IH Ht Hf). destruct (q_parent x =? m); cbn [map]; rewrite ?vsum_cons, ?E, IH; reflexivity. }
+    rewrite E1.
+    rewrite (sumc_change sh g g' m n q Hnd Hf).
+    - unfold g'. rewrite Hqn, Z.eqb_refl. reflexivity.
+    - intros c Hc Hcn. unfold g'. apply Z.eqb_neq in Hcn. rewrite Hcn. reflexivity.
+  Qed.
+End UpdConst.
